@@ -60,6 +60,8 @@ type ContractFile struct {
 	Path   string
 	Scan   map[string]int // counts of assumed/tolerates/trusted
 	Lists  map[string][]string
+	Groups map[string]*Contract
+	Applies [][2]string // group, glob
 	specText string
 }
 
@@ -157,7 +159,7 @@ func readSexp(s string, i int) (string, int) {
 var clauseRe = regexp.MustCompile(`^(requires|ensures|invariant|decreases)(\[[A-Z0-9, ]+\])?\s+(.*)$`)
 
 func parseContractFile(path string, extra ...string) (*ContractFile, error) {
-	cf := &ContractFile{ByName: map[string]*Contract{}, Path: path, Scan: map[string]int{}, Lists: map[string][]string{}}
+	cf := &ContractFile{ByName: map[string]*Contract{}, Path: path, Scan: map[string]int{}, Lists: map[string][]string{}, Groups: map[string]*Contract{}}
 	var lines []string
 	var lineNos []int
 	for _, p := range append([]string{path}, extra...) {
@@ -190,6 +192,76 @@ func parseContractFile(path string, extra ...string) (*ContractFile, error) {
 			lineNos = append(lineNos, i+1)
 		}
 	}
+	// textual macros: define NAME(a, b) body
+	type macro struct {
+		params []string
+		body   string
+	}
+	macros := map[string]macro{}
+	var kept []string
+	var keptNos []int
+	for i, l := range lines {
+		if strings.HasPrefix(l, "define ") {
+			rest := strings.TrimSpace(l[len("define "):])
+			op := strings.Index(rest, "(")
+			cl := strings.Index(rest, ")")
+			if op < 0 || cl < op {
+				return nil, fmt.Errorf("line %d: define NAME(params) body", lineNos[i])
+			}
+			var ps []string
+			for _, q := range strings.Split(rest[op+1:cl], ",") {
+				if q = strings.TrimSpace(q); q != "" {
+					ps = append(ps, q)
+				}
+			}
+			macros[strings.TrimSpace(rest[:op])] = macro{ps, strings.TrimSpace(rest[cl+1:])}
+			continue
+		}
+		kept = append(kept, l)
+		keptNos = append(keptNos, lineNos[i])
+	}
+	lines, lineNos = kept, keptNos
+	expand := func(text string) string {
+		for iter := 0; iter < 6; iter++ {
+			changed := false
+			for name, m := range macros {
+				for {
+					k := indexWord(text, name+"(")
+					if k < 0 {
+						break
+					}
+					// find matching paren
+					d, j := 0, k+len(name)
+					for ; j < len(text); j++ {
+						if text[j] == '(' {
+							d++
+						} else if text[j] == ')' {
+							d--
+							if d == 0 {
+								break
+							}
+						}
+					}
+					args := splitTopLevel(text[k+len(name)+1:j], ',')
+					body := m.body
+					for pi, pn := range m.params {
+						if pi < len(args) {
+							body = replaceWord(body, pn, "("+strings.TrimSpace(args[pi])+")")
+						}
+					}
+					text = text[:k] + "(" + body + ")" + text[j+1:]
+					changed = true
+				}
+			}
+			if !changed {
+				break
+			}
+		}
+		return text
+	}
+	for i := range lines {
+		lines[i] = expand(lines[i])
+	}
 	var cur *Contract
 	for i, l := range lines {
 		ln := lineNos[i]
@@ -206,6 +278,21 @@ func parseContractFile(path string, extra ...string) (*ContractFile, error) {
 			if len(fields) >= 2 {
 				cf.Lists[fields[1]] = append(cf.Lists[fields[1]], fields[2:]...)
 			}
+			continue
+		case "apply":
+			if len(fields) < 3 {
+				return nil, fmt.Errorf("line %d: apply GROUP GLOB", ln)
+			}
+			cf.Applies = append(cf.Applies, [2]string{fields[1], strings.Join(fields[2:], " ")})
+			cur = nil
+			continue
+		case "group":
+			cur = &Contract{Kind: "group", Name: fields[1], LoopInv: map[int][]*CExpr{}, LoopDec: map[int]*CExpr{},
+				Nilable: map[string]bool{}, NonNil: map[string]bool{}, Flags: map[string]string{}, Line: ln}
+			if k := strings.Index(l, "props:"); k >= 0 {
+				cur.Props = strings.FieldsFunc(l[k+6:], func(r rune) bool { return r == ',' || r == ' ' })
+			}
+			cf.Groups[fields[1]] = cur
 			continue
 		case "func", "iface", "functype":
 			rest := strings.TrimSpace(l[len(fields[0]):])
@@ -236,6 +323,9 @@ func parseContractFile(path string, extra ...string) (*ContractFile, error) {
 		body := l
 		if fields[0] == "loop" && len(fields) >= 3 {
 			n, err := strconv.Atoi(fields[1])
+			if fields[1] == "*" {
+				n, err = -1, nil // every loop of the function
+			}
 			if err != nil {
 				return nil, fmt.Errorf("line %d: loop ordinal: %v", ln, err)
 			}
@@ -300,6 +390,14 @@ func parseContractFile(path string, extra ...string) (*ContractFile, error) {
 			}
 		case "params":
 			cur.ParamNames = fields[1:]
+		case "use":
+			for _, g := range fields[1:] {
+				grp := cf.Groups[g]
+				if grp == nil {
+					return nil, fmt.Errorf("line %d: unknown group %q", ln, g)
+				}
+				mergeContract(cur, grp)
+			}
 		case "modifies":
 			cur.HasModifies = true
 			rest := strings.TrimSpace(l[len("modifies"):])
@@ -1044,3 +1142,125 @@ func (w *World) typeByName(name string) types.Type {
 
 // specText is the concatenated SMT prelude of /verif/spec/*.smt2.
 func (cf *ContractFile) SpecText() string { return cf.specText }
+
+// mergeContract adds the clauses of a group to a contract. Clauses whose props are the group's
+// defaults inherit them; explicit per-clause props are kept.
+func mergeContract(dst, grp *Contract) {
+	dst.Requires = append(dst.Requires, grp.Requires...)
+	dst.Ensures = append(dst.Ensures, grp.Ensures...)
+	dst.Modifies = append(dst.Modifies, grp.Modifies...)
+	if grp.HasModifies {
+		dst.HasModifies = true
+	}
+	for k, v := range grp.LoopInv {
+		dst.LoopInv[k] = append(dst.LoopInv[k], v...)
+	}
+	for k, v := range grp.Nilable {
+		dst.Nilable[k] = v
+	}
+	for k, v := range grp.NonNil {
+		dst.NonNil[k] = v
+	}
+	for k, v := range grp.Flags {
+		if _, ok := dst.Flags[k]; !ok {
+			dst.Flags[k] = v
+		}
+	}
+	if grp.ArithChecked {
+		dst.ArithChecked = true
+	}
+	if grp.Fresh {
+		dst.Fresh = true
+	}
+	if grp.Assumed {
+		dst.Assumed = true
+	}
+	for _, p := range grp.Props {
+		if !hasProp(dst.Props, p) {
+			dst.Props = append(dst.Props, p)
+		}
+	}
+}
+
+func globMatch(glob, name string) bool {
+	parts := strings.Split(glob, "*")
+	if len(parts) == 1 {
+		return glob == name
+	}
+	if !strings.HasPrefix(name, parts[0]) {
+		return false
+	}
+	name = name[len(parts[0]):]
+	for i := 1; i < len(parts)-1; i++ {
+		k := strings.Index(name, parts[i])
+		if k < 0 {
+			return false
+		}
+		name = name[k+len(parts[i]):]
+	}
+	return strings.HasSuffix(name, parts[len(parts)-1])
+}
+
+// resolveApplies instantiates `apply GROUP GLOB` for every matching function.
+func (cf *ContractFile) resolveApplies(funcNames []string) error {
+	for _, ap := range cf.Applies {
+		grp := cf.Groups[ap[0]]
+		if grp == nil {
+			return fmt.Errorf("apply: unknown group %q", ap[0])
+		}
+		n := 0
+		for _, fn := range funcNames {
+			if !globMatch(ap[1], fn) {
+				continue
+			}
+			n++
+			ct := cf.ByName[fn]
+			if ct == nil {
+				ct = &Contract{Kind: "func", Name: fn, LoopInv: map[int][]*CExpr{}, LoopDec: map[int]*CExpr{},
+					Nilable: map[string]bool{}, NonNil: map[string]bool{}, Flags: map[string]string{}, Line: grp.Line}
+				cf.ByName[fn] = ct
+				cf.Order = append(cf.Order, ct)
+			}
+			mergeContract(ct, grp)
+		}
+		if n == 0 {
+			return fmt.Errorf("apply %s %s: no function matches", ap[0], ap[1])
+		}
+	}
+	return nil
+}
+
+func isWordByte(c byte) bool {
+	return c == '_' || (c >= '0' && c <= '9') || (c >= 'a' && c <= 'z') || (c >= 'A' && c <= 'Z')
+}
+
+// indexWord finds `pat` in s at an identifier boundary on the left.
+func indexWord(s, pat string) int {
+	from := 0
+	for {
+		k := strings.Index(s[from:], pat)
+		if k < 0 {
+			return -1
+		}
+		k += from
+		if k == 0 || !(isWordByte(s[k-1]) || s[k-1] == '.') {
+			return k
+		}
+		from = k + 1
+	}
+}
+
+func replaceWord(s, word, repl string) string {
+	var b strings.Builder
+	for i := 0; i < len(s); {
+		if strings.HasPrefix(s[i:], word) && (i == 0 || !(isWordByte(s[i-1]) || s[i-1] == '.')) &&
+			(i+len(word) >= len(s) || !isWordByte(s[i+len(word)])) {
+			b.WriteString(repl)
+			i += len(word)
+			continue
+		}
+		b.WriteByte(s[i])
+		i++
+	}
+	return b.String()
+}
